@@ -1,4 +1,5 @@
 import Driver.Sinks
+import Driver.PQ
 /-!
 `nexo_driver <engine>` — folds the executable Lean model of an engine over request lines read from
 stdin and prints one response line per request.  A line starting with `case` resets the state.
@@ -19,4 +20,5 @@ def main (args : List String) : IO UInt32 := do
   let stdout ← IO.getStdout
   match args with
   | ["sinks"] => loop stdin stdout Driver.Sinks.step Driver.Sinks.St.none; return 0
+  | ["pq"] => loop stdin stdout Driver.PQ.step Driver.PQ.St.none; return 0
   | _ => IO.eprintln "usage: nexo_driver <engine>"; return 2
